@@ -1,0 +1,9 @@
+//go:build !verif
+// +build !verif
+
+// Package verifhook provides yield points for the verification harness.
+// Without the `verif` build tag every hook is an empty, inlinable function.
+package verifhook
+
+// Gate is a named yield point; a no-op in normal builds.
+func Gate(name string) {}
